@@ -53,6 +53,11 @@ Proof. exact locale_rejects_overlong. Qed.
 Theorem C03_rejects_malformed : forall s t, In t (split s) -> existsb (fun b => negb (is_alnum b)) t = true ->
   exists e, locale_from_bytes s = Err e.
 Proof. exact locale_rejects_malformed. Qed.
+(* the general form of the two theorems above: ANY token outside the usable alphabet / length (tok_ok, the
+   executable token test of the specification) anywhere in the string makes the parser return an error *)
+Theorem C03_rejects_bad_token : forall s t, In t (split s) -> tok_ok t = false -> exists e, locale_from_bytes s = Err e.
+Proof. exact locale_rejects_bad_token. Qed.
+Print Assumptions C03_rejects_bad_token.
 (* a singleton other than t / u / x (either case) anywhere after the language identifier and before a private-use
    singleton; a REPEATED -u- (c = 117) or -t- (c = 116) singleton; a multi-character token where a singleton is
    expected directly after the language identifier: all MustReject, hence (C03_rejects) an error *)
